@@ -1,7 +1,9 @@
 package rules
 
 import (
+	"fmt"
 	"go/token"
+	"go/types"
 	"strings"
 
 	"golang.org/x/tools/go/ssa"
@@ -154,6 +156,125 @@ func runC14(p *core.Prog, r *core.Report) {
 	checkSetModeStores(p, r, r3, "(*pkg/local_object_storage/writecache.cache).SetMode", "(pkg/local_object_storage/writecache.cache).mode")
 	checkSetModeStores(p, r, r3, "(*pkg/local_object_storage/metabase.DB).SetMode", "(pkg/local_object_storage/metabase.DB).mode")
 	checkSetModeStores(p, r, r3, shardT+".setMode", shModeF)
+	// ---- R4 the switch stops at the first component that refuses
+	r4 := r.Rule("C14.R4", "Shard.setMode applies the mode component by component and stops at the first failure: the next component is called, and the shard's mode recorded, only after the previous call returned nil; towards READ_WRITE the metabase goes first (the order is changed only when leaving READ_WRITE)", 4)
+	shardSwitchStopsAtFirstFailure(p, r, r4)
+	// ---- R5 the configured mode reaches the components
+	r5 := r.Rule("C14.R5", "Shard.Init (the tabled lifecycle exception: components are opened for writing) succeeds only with the components in the shard's configured mode: the mode is READ_WRITE, or SetMode(mode) returned nil; and a shard configured READ_ONLY switches its write-cache to read-only right after initialising it, before the (possibly long) metabase initialisation", 2)
+	configuredModeApplied(p, r, r5)
+	r.Explain += " (R5) the mode a shard is configured with is applied to its components at start: Shard.Init reports success only when the mode is READ_WRITE or SetMode(mode) returned nil, and for READ_ONLY the write-cache is switched right after its own initialisation (its flush workers otherwise move cached objects into blobstor while the shard already answers 'read-only')."
+	r.Explain += " (R4) Shard.setMode calls the components' mode switches one after another and stops at the first error, and the stored order puts the metabase first unless the switch leaves READ_WRITE: when the metabase cannot be reopened for writing, blobstor and the write-cache are not made writable behind a shard that keeps reporting read-only (a writable write-cache flushes on its own, without any request)."
+}
+
+func shardSwitchStopsAtFirstFailure(p *core.Prog, r *core.Report, h *core.RuleH) {
+	fn := p.Func(shardT + ".setMode")
+	if fn == nil {
+		r.Fatalf("C14.R4: Shard.setMode not found")
+		return
+	}
+	name := core.FuncName(fn)
+	rw, okRW := p.ConstInt("github.com/nspcc-dev/neofs-node/pkg/local_object_storage/shard/mode.ReadWrite")
+	if !okRW {
+		r.Fatalf("C14.R4: mode.ReadWrite not found")
+		return
+	}
+	var modeStores []*ssa.Store
+	var calls []*ssa.Call
+	var reorder []*ssa.Store
+	var first ssa.Value
+	for _, b := range fn.Blocks {
+		for _, in := range b.Instrs {
+			switch x := in.(type) {
+			case *ssa.Call:
+				if x.Call.IsInvoke() || core.StaticCallee(x) != nil || len(x.Call.Args) != 1 || core.ParamIndex(fn, x.Call.Args[0]) != 1 {
+					continue
+				}
+				if sg, ok := x.Call.Value.Type().Underlying().(*types.Signature); ok && sg.Results().Len() == 1 && sg.Results().At(0).Type().String() == "error" {
+					calls = append(calls, x)
+				}
+			case *ssa.Store:
+				if fa, ok := x.Addr.(*ssa.FieldAddr); ok && core.FieldAddrName(fa) == shModeF {
+					modeStores = append(modeStores, x)
+				}
+				ia, ok := x.Addr.(*ssa.IndexAddr)
+				if !ok {
+					continue
+				}
+				if _, isSig := x.Val.Type().Underlying().(*types.Signature); !isSig {
+					continue
+				}
+				if al, isAl := ia.X.(*ssa.Alloc); isAl {
+					// the slice literal: remember what is put first
+					if k, isK := intConstOf(ia.Index); isK && k == 0 && al.Comment == "slicelit" {
+						if _, isArr := al.Type().Underlying().(*types.Pointer).Elem().Underlying().(*types.Array); isArr && first == nil {
+							first = x.Val
+						}
+					}
+					continue
+				}
+				reorder = append(reorder, x)
+			}
+		}
+	}
+	if len(calls) != 1 || len(modeStores) == 0 {
+		h.Bad(name+"#component-loop", p.Pos(fn.Pos()), fmt.Sprintf("expected one component call site and a store of the shard mode, found %d and %d", len(calls), len(modeStores)))
+		return
+	}
+	c := calls[0]
+	succ := map[[2]*ssa.BasicBlock]bool{}
+	if c.Referrers() != nil {
+		for _, ref := range *c.Referrers() {
+			bo, ok := ref.(*ssa.BinOp)
+			if !ok || bo.Referrers() == nil {
+				continue
+			}
+			k, isK := bo.Y.(*ssa.Const)
+			if !isK || !k.IsNil() || bo.Op != token.NEQ && bo.Op != token.EQL {
+				continue
+			}
+			for _, u := range *bo.Referrers() {
+				if iff, isIf := u.(*ssa.If); isIf {
+					blk := iff.Block()
+					if bo.Op == token.NEQ {
+						succ[[2]*ssa.BasicBlock{blk, blk.Succs[1]}] = true
+					} else {
+						succ[[2]*ssa.BasicBlock{blk, blk.Succs[0]}] = true
+					}
+				}
+			}
+		}
+	}
+	h.Check(len(succ) > 0 && inCycle(c.Block()) && !reachesAvoiding(c.Block(), c.Block(), nil, succ), name+"#next-component", p.InstrPos(c),
+		"the next component is switched only after this one returned nil", "Shard.setMode goes on to the next component after one has failed: towards READ_WRITE a metabase that cannot be reopened no longer keeps blobstor and the write-cache read-only, and the write-cache flushes while the shard reports read-only")
+	for _, st := range modeStores {
+		h.Check(len(succ) > 0 && !reachesAvoiding(c.Block(), st.Block(), nil, succ), name+"#mode-recorded", p.InstrPos(st),
+			"the shard's mode is recorded only after every component accepted it", "Shard.setMode records the new mode although a component refused it")
+	}
+	// order: metabase first, changed only when leaving READ_WRITE
+	mc, _ := first.(*ssa.MakeClosure)
+	h.Check(mc != nil && strings.Contains(mc.Fn.Name(), "SetMode") && strings.HasSuffix(core.FuncName(mc.Fn.(*ssa.Function)), "metabase.DB).SetMode$bound"), name+"#first-component", p.Pos(fn.Pos()),
+		"the component list starts with the metabase", "Shard.setMode no longer switches the metabase first towards READ_WRITE")
+	leaving := func(b *ssa.BasicBlock) bool {
+		for _, blk := range fn.Blocks {
+			for _, in := range blk.Instrs {
+				bo, ok := in.(*ssa.BinOp)
+				if !ok || core.ParamIndex(fn, bo.X) != 1 {
+					continue
+				}
+				k, isK := intConstOf(bo.Y)
+				if !isK || k != rw {
+					continue
+				}
+				if bo.Op == token.NEQ && branchDominates(bo, true, b) || bo.Op == token.EQL && branchDominates(bo, false, b) {
+					return true
+				}
+			}
+		}
+		return false
+	}
+	for _, st := range reorder {
+		h.Check(leaving(st.Block()), name+"#reorder", p.InstrPos(st), "components are reordered only when the shard leaves READ_WRITE", "Shard.setMode reorders the components also towards READ_WRITE: something becomes writable before the metabase has agreed")
+	}
 }
 
 // checkSetModeStores: every nil return of fn has executed `field = <mode parameter>` or
@@ -182,4 +303,65 @@ func checkSetModeStores(p *core.Prog, r *core.Report, h *core.RuleH, fnName, fie
 	}
 	core.CheckSuccessFn(p, h, fn, core.SuccessRule{ResultIdx: -1, MinReturns: 1, Guards: guards,
 		Derived: []core.Derived{{Name: "mode-recorded", Alts: [][]string{{"mode-stored"}, {"mode-already-set"}}}}, Need: []string{"mode-recorded"}})
+}
+
+func configuredModeApplied(p *core.Prog, r *core.Report, h *core.RuleH) {
+	fn := p.Func(shardT + ".Init")
+	if fn == nil {
+		r.Fatalf("C14.R5: Shard.Init not found")
+		return
+	}
+	rw, okRW := p.ConstInt("github.com/nspcc-dev/neofs-node/pkg/local_object_storage/shard/mode.ReadWrite")
+	ro, okRO := p.ConstInt("github.com/nspcc-dev/neofs-node/pkg/local_object_storage/shard/mode.ReadOnly")
+	if !okRW || !okRO {
+		r.Fatalf("C14.R5: mode constants not found")
+		return
+	}
+	isModeVal := func(v ssa.Value) bool {
+		if c, ok := v.(*ssa.Call); ok && core.CalleeName(c) == shardT+".GetMode" {
+			return true
+		}
+		return fieldLoadOf(shModeF)(v)
+	}
+	cmpMode := func(k int64, op token.Token) func(*ssa.Function, ssa.Value) bool {
+		return func(_ *ssa.Function, v ssa.Value) bool {
+			bo, ok := v.(*ssa.BinOp)
+			if !ok || bo.Op != op {
+				return false
+			}
+			c, isC := intConstOf(bo.Y)
+			return isC && c == k && isModeVal(bo.X)
+		}
+	}
+	guards := []core.Guard{
+		{Name: "configured-read-write(ne-form)", Comps: []core.Comp{{Result: -1, Kind: core.IsFalse}}, Value: cmpMode(rw, token.NEQ)},
+		{Name: "configured-read-write(eq-form)", Comps: []core.Comp{{Result: -1, Kind: core.IsTrue}}, Value: cmpMode(rw, token.EQL)},
+		{Name: "mode-applied", Match: func(s core.Site) bool {
+			return (s.Name == shardT+".SetMode" || s.Name == shardT+".setMode") && len(s.Call.Common().Args) == 2 && isModeVal(s.Call.Common().Args[1])
+		}, Comps: []core.Comp{{Result: -1, Kind: core.ErrNil}}},
+	}
+	core.CheckSuccessFn(p, h, fn, core.SuccessRule{ResultIdx: -1, MinReturns: 1, Guards: guards,
+		Derived: []core.Derived{{Name: "components-in-configured-mode", Alts: [][]string{{"configured-read-write(ne-form)"}, {"configured-read-write(eq-form)"}, {"mode-applied"}}}}, Need: []string{"components-in-configured-mode"}})
+	// the cache stops before the metabase is initialised
+	wcInit := core.CallSites([]*ssa.Function{fn}, func(s core.Site) bool { return strings.HasSuffix(s.Name, "writecache.Cache).Init") })
+	mbInit := core.CallSites([]*ssa.Function{fn}, func(s core.Site) bool { return s.Name == "(*pkg/local_object_storage/metabase.DB).Init" })
+	if len(wcInit) == 0 || len(mbInit) == 0 {
+		h.Bad(core.FuncName(fn)+"#cache-stopped-early", p.Pos(fn.Pos()), "Shard.Init no longer initialises the write-cache and the metabase itself")
+		return
+	}
+	early := []core.Guard{
+		{Name: "configured-not-read-only(ne-form)", Comps: []core.Comp{{Result: -1, Kind: core.IsTrue}}, Value: cmpMode(ro, token.NEQ)},
+		{Name: "configured-not-read-only(eq-form)", Comps: []core.Comp{{Result: -1, Kind: core.IsFalse}}, Value: cmpMode(ro, token.EQL)},
+		{Name: "cache-switched", Match: func(s core.Site) bool {
+			if !strings.HasSuffix(s.Name, "writecache.Cache).SetMode") {
+				return false
+			}
+			k, isK := intConstOf(s.Call.Common().Args[0])
+			return isK && k == ro || isModeVal(s.Call.Common().Args[0])
+		}, Comps: []core.Comp{{Result: -1, Kind: core.ErrNil}}},
+		{Name: "no-write-cache", Match: func(s core.Site) bool { return s.Name == shardT+".hasWriteCache" }, Comps: []core.Comp{{Result: -1, Kind: core.IsFalse}}},
+	}
+	core.CheckEffectsFn(p, h, fn, core.EffectRule{Min: 1, Guards: early,
+		Derived: []core.Derived{{Name: "cache-cannot-flush-in-read-only", Alts: [][]string{{"configured-not-read-only(ne-form)"}, {"configured-not-read-only(eq-form)"}, {"cache-switched"}, {"no-write-cache"}}}},
+		Effect: core.CallTo("(*pkg/local_object_storage/metabase.DB).Init"), Need: func(string) []string { return []string{"cache-cannot-flush-in-read-only"} }})
 }
